@@ -18,7 +18,7 @@ from fractions import Fraction as F
 from ..engine import MachineryError, alarm, CaseTimeout
 from .. import tlaval
 
-LAWS = ["Binary", "Power", "Recip", "Triple"]
+LAWS = ["Binary", "Power", "Recip", "Triple", "Edit"]
 REG_LINES = ["a = [A]", "b = [B]", "c = a ** 2 / b", "h = [H]"]
 
 
@@ -160,6 +160,19 @@ def run(chk):
                 elif op == "pow":
                     R = X ** kk
                     R2 = None
+                elif op in ("add1", "remove", "rename"):
+                    if layer not in ("UnitsContainer", "ParserHelper"):
+                        continue
+                    n1 = next(iter(y))
+                    R2 = None
+                    if op == "add1":
+                        R = X.add(n1, conv_exp(y[n1], TT))
+                        if layer == "ParserHelper" and y[n1] in (1, -1):      # ParserHelper * "name", / "name"
+                            R2 = (X * n1) if y[n1] == 1 else (X / n1)
+                    elif op == "remove":
+                        R = X.remove([n1])
+                    else:
+                        R = X.rename(n1, next(iter(z)))
                 elif op == "rdiv":
                     R = 1 / X
                     if layer == "Unit":          # number / Unit is a Quantity: its unit is the reciprocal
@@ -283,11 +296,30 @@ def drive_default(chk, rng, n):
                   "hash_stable": True, "eq_fresh": True, "hash_fresh": True, "ok": False, "exc": type(e).__name__}
         events.append(ev)
 
+    # dimensionality homomorphism over units, base dimensions and derived dimensions
+    mixed = names[:60] + dims
+    for i in range(n // 3):
+        pool = dims if rng.random() < 0.5 else mixed
+        x, y = rand_cont(pool), rand_cont(pool)
+        op = rng.choice(["mul", "div", "pow", "rdiv"])
+        k = rng.choice(powers)
+        try:
+            X, Y = ureg.UnitsContainer(x), ureg.UnitsContainer(y)
+            R = {"mul": lambda: X * Y, "div": lambda: X / Y, "pow": lambda: X ** k, "rdiv": lambda: 1 / X}[op]()
+            gd = lambda c: pairs((kk, F(v).limit_denominator(10 ** 6)) for kk, v in ureg.get_dimensionality(c).items())
+            events.append({"ev": "hom", "op": op, "k": [F(k).numerator, F(k).denominator], "x": pairs(x.items()), "y": pairs(y.items()),
+                           "dx": gd(X), "dy": gd(Y), "dres": gd(R), "ok": True})
+        except Exception as e:
+            events.append({"ev": "hom", "op": op, "k": [F(k).numerator, F(k).denominator], "x": pairs(x.items()), "y": pairs(y.items()),
+                           "dx": [], "dy": [], "dres": [], "ok": False, "exc": type(e).__name__})
+
     # Buckingham pi on random quantity sets of the default registry (dimension matrix logged with the answer)
     base_dims = ["[length]", "[mass]", "[time]", "[current]", "[temperature]"]
     upool = ["meter", "second", "kilogram", "newton", "joule", "watt", "pascal", "hertz", "ampere", "volt", "kelvin",
              "meter/second", "meter/second**2", "kilogram/meter**3", "pascal*second", "newton/meter", "joule/kelvin",
-             "watt/meter/kelvin", "meter**2/second", "coulomb", "ohm", "dimensionless", "radian"]
+             "watt/meter/kelvin", "meter**2/second", "coulomb", "ohm", "dimensionless", "radian",
+             "meter**2", "second**3", "meter*second", "kilogram**2/second", "meter**3/kilogram**2", "second**-2", "ampere**2*second",
+             "kelvin**3", "meter**-3", "kilogram*meter**2", "newton**2", "joule**3/watt**2"]
     for i in range(n // 10):
         nq = rng.randint(2, 5)
         qs = {"v%d" % j: rng.choice(upool) for j in range(nq)}
